@@ -9,9 +9,12 @@ import (
 	"testing"
 
 	"verif/internal/corpus"
+	"verif/internal/gen"
 	"verif/internal/hx"
 	"verif/internal/recipe"
-	"verif/internal/rt"
+	rtpkg "verif/internal/rt"
+
+	"pgregory.net/rapid"
 )
 
 // Case is one source file (self-contained: the text is in the case).
@@ -45,19 +48,19 @@ func rootFor(dir string) *corpus.Root {
 type outcome struct {
 	status string
 	why    string
-	p      *rt.Parsed
+	p      *rtpkg.Parsed
 }
 
 func roundTrip(c Case) (outcome, error) {
-	p, status, why := rt.Translate(c.Name, []byte(c.Src), rootFor(c.Root), nil, true)
-	if status != rt.OK {
+	p, status, why := rtpkg.Translate(c.Name, []byte(c.Src), rootFor(c.Root), nil, true)
+	if status != rtpkg.OK {
 		return outcome{status: status, why: why}, nil
 	}
-	out, err := rt.Render(&recipe.Builder{}, p.Recipe)
+	out, err := rtpkg.Render(&recipe.Builder{}, p.Recipe)
 	if err != nil {
-		return outcome{status: status, p: p}, fmt.Errorf("File.Render failed for a valid program: %s", rt.Short(err.Error(), 1200))
+		return outcome{status: status, p: p}, fmt.Errorf("File.Render failed for a valid program: %s", rtpkg.Short(err.Error(), 1200))
 	}
-	if err := rt.Compare(p.AST, out); err != nil {
+	if err := rtpkg.Compare(p.AST, out); err != nil {
 		return outcome{status: status, p: p}, err
 	}
 	return outcome{status: status, p: p}, nil
@@ -120,8 +123,8 @@ func TestC01Corpus(t *testing.T) {
 			switch {
 			case err != nil:
 				r.Violate(ck.Name, c, err)
-			case oc.status != rt.OK:
-				if oc.status == rt.InvalidSrc {
+			case oc.status != rtpkg.OK:
+				if oc.status == rtpkg.InvalidSrc {
 					r.Class(oc.status)
 				} else {
 					r.Class(oc.status + ":" + oc.why)
@@ -143,4 +146,37 @@ func TestC01Corpus(t *testing.T) {
 		}(f)
 	}
 	wg.Wait()
+}
+
+func TestC01Generated(t *testing.T) {
+	r := hx.Start(t, "C01")
+	defer r.Finish(t)
+	ck := hx.Check[Case]{Name: "generated_program", Fn: check}
+	discards := 0
+	n := r.N(400, 3000)
+	hx.Rapid(r, t, ck, n, func(rt *rapid.T) Case {
+		src := gen.Program(rt, 5)
+		c := Case{Name: "generated.go", Src: recipe.Text(src)}
+		p, status, _ := rtpkg.Translate(c.Name, []byte(src), rootFor(""), nil, true)
+		switch status {
+		case rtpkg.OK:
+			r.Class("generated:translated")
+			r.NonTrivial(src)
+			for k, v := range p.Stats.Shapes {
+				r.ClassN("gshape:"+k, v)
+			}
+			if p.Stats.MaxDepth >= 12 {
+				r.Class("generated:depth>=12")
+			}
+		case rtpkg.InvalidSrc:
+			discards++
+			r.Discard()
+		default:
+			r.Class("generated:skipped")
+		}
+		return c
+	})
+	if !r.Replaying() && discards*100 > n {
+		r.Inconclusive("program generator: %d of %d programs do not parse (generator bug)", discards, n)
+	}
 }
